@@ -6,7 +6,10 @@
 
 package excelize
 
-import "time"
+import (
+	"reflect"
+	"time"
+)
 
 // VerifTimeToExcelTime exposes timeToExcelTime.
 func VerifTimeToExcelTime(t time.Time, date1904 bool) (float64, error) {
@@ -16,4 +19,14 @@ func VerifTimeToExcelTime(t time.Time, date1904 bool) (float64, error) {
 // VerifTimeFromExcelTime exposes timeFromExcelTime.
 func VerifTimeFromExcelTime(x float64, date1904 bool) time.Time {
 	return timeFromExcelTime(x, date1904)
+}
+
+// VerifFormulaFuncNames lists the formula functions callFuncByName can dispatch to.
+func VerifFormulaFuncNames() []string {
+	t := reflect.TypeOf(&formulaFuncs{})
+	names := make([]string, 0, t.NumMethod())
+	for i := 0; i < t.NumMethod(); i++ {
+		names = append(names, t.Method(i).Name)
+	}
+	return names
 }
